@@ -416,3 +416,88 @@ func VerifC08MergeCloseAfterEOF() {
 		}
 	}
 }
+
+// copies closed by different goroutines at the same time: the source is closed exactly once (a pipe source would
+// panic on a second close), nothing races, and the writer is told on its next send
+func VerifC08CopyCloseConcurrent() {
+	vcfg("preempt", 2)
+	n := 2 + vchoose("n", 1+vtier())
+	src, sw, items := c08Source(1, -1, false)
+	cps := src.Copy(n)
+	reader := vchoose("reader", n+1)
+	for i := 1; i < n; i++ {
+		c := cps[i]
+		rd := reader == i
+		go func() {
+			if rd {
+				v, err := c.Recv()
+				vassert(err == nil && v == items[0].v, "a copy reads the first item")
+			}
+			c.Close()
+		}()
+	}
+	if reader == 0 {
+		v, err := cps[0].Recv()
+		vassert(err == nil && v == items[0].v, "a copy reads the first item")
+	}
+	cps[0].Close()
+	vquiesce()
+	vassert(sw.Send(8, nil), "when every copy has been closed (by whichever goroutines) the writer is told on its next send")
+}
+
+// array-backed readers built over pages of one batch: merging one page with another reader leaves the readers of
+// the other pages untouched (each reader delivers exactly what it was created with)
+func VerifC08MergeArrayPages() {
+	batch := make([]int, 0, 8)
+	for i := 0; i < 6; i++ {
+		batch = append(batch, c08Val())
+	}
+	want := append([]int{}, batch...)
+	p1 := StreamReaderFromArray(batch[0:2])
+	p2 := StreamReaderFromArray(batch[2:4])
+	p3 := StreamReaderFromArray(batch[4:6])
+	other := []int{c08Val(), c08Val(), c08Val()}
+	wantOther := append([]int{}, other...)
+	nOther := 1 + vchoose("other", 3)
+	pre := vchoose("pre", 2) // the first page has been read that far before merging
+	for i := 0; i < pre; i++ {
+		v, err := p1.Recv()
+		vassert(err == nil && v == want[i], "page 1 delivers its own items")
+	}
+	var merged *StreamReader[int]
+	if vchoose("order", 2) == 0 {
+		merged = MergeStreamReaders([]*StreamReader[int]{p1, StreamReaderFromArray(other[:nOther])})
+	} else {
+		merged = MergeStreamReaders([]*StreamReader[int]{StreamReaderFromArray(other[:nOther]), p1})
+	}
+	seen := map[int]int{}
+	count := 0
+	for i := 0; i < 8; i++ {
+		v, err := merged.Recv()
+		if err == io.EOF {
+			break
+		}
+		vassert(err == nil, "merged stream delivers values")
+		seen[v]++
+		count++
+	}
+	merged.Close()
+	vassert(count == 2-pre+nOther, "the merged stream delivers every remaining item of its sources exactly once")
+	for i := pre; i < 2; i++ {
+		vassert(seen[want[i]] == 1, "the merged stream delivers page 1's items")
+	}
+	for i := 0; i < nOther; i++ {
+		vassert(seen[wantOther[i]] == 1, "the merged stream delivers the other source's items")
+	}
+	for k, p := range []*StreamReader[int]{p2, p3} {
+		for i := 0; i < 2; i++ {
+			v, err := p.Recv()
+			vassert(err == nil && v == want[2+2*k+i], "a reader over another page of the batch still delivers exactly the items it was created with")
+		}
+		_, err := p.Recv()
+		vassert(err == io.EOF, "and then ends")
+	}
+	for i := range want {
+		vassert(batch[i] == want[i], "the caller's batch is not modified")
+	}
+}
